@@ -114,10 +114,7 @@ func (w *World) key1(v ssa.Value) string {
 		return "&" + w.locKey(x)
 	case *ssa.Field:
 		st := x.X.Type().Underlying().(*types.Struct)
-		if r := w.structFieldValue(x.X, []string{st.Field(x.Field).Name()}, 0); r != nil {
-			return w.key(r)
-		}
-		return w.key(x.X) + "." + st.Field(x.Field).Name()
+		return w.structFieldKey(x.X, []string{st.Field(x.Field).Name()}, 0)
 	case *ssa.UnOp:
 		if x.Op == token.MUL {
 			return w.loadKey(x)
@@ -245,10 +242,7 @@ func (w *World) loadKey(ld *ssa.UnOp) string {
 				b = b[:j]
 			}
 			if ss := w.stores[b]; len(ss) == 1 {
-				if r := w.structFieldValue(ss[0].Val, strings.Split(strings.TrimPrefix(f, "."), "."), 0); r != nil {
-					return w.key(r)
-				}
-				return w.key(ss[0].Val) + f
+				return w.structFieldKey(ss[0].Val, strings.Split(strings.TrimPrefix(f, "."), "."), 0)
 			}
 		}
 		if len(w.stores[loc]) == 0 && len(w.storesUnder(loc)) == 0 {
